@@ -5,6 +5,7 @@ import AdeuModel.Model.Trim
 import AdeuModel.Model.Init
 import AdeuModel.DriverDoc
 import AdeuModel.Model.Mapper
+import AdeuModel.Model.Engine
 /-
 Line protocol driver: one JSON object per input line, one JSON result per output line.
 Imports model files only (never Lemmas/Props), so it can be compiled to a native executable.
@@ -174,6 +175,39 @@ def handleNormalize (j : Json) : Except String Json := do
   pure <| Json.mkObj [("doc", DriverDoc.docStoriesJ d),
     ("concl", Json.mkObj [("idempotent", toJson ((DriverDoc.docStoriesJ (Doc.normalize d)).compress == (DriverDoc.docStoriesJ d).compress))])]
 
+def handleApplyIndexed (j : Json) : Except String Json := do
+  let d0 ← DriverDoc.parseDoc (← j.getObjVal? "doc")
+  let author ← getStr j "author"
+  let edits ← (← j.getObjValAs? (Array Json) "edits").toList.mapM fun e => do
+    let idx ← e.getObjValAs? Nat "index"
+    let t ← getStr e "target"
+    let n ← getStr e "new"
+    let c := match e.getObjVal? "comment" with | .ok (Json.str x) => some x.toList | _ => none
+    pure ({ index := idx, target := t, new := n, comment := c } : Doc.IEdit)
+  let s0 := Doc.Sess.open d0 author "DATE".toList
+  let (s1, ap, sk) := Doc.applyEditsIndexed s0 edits
+  pure <| Json.mkObj [("doc", DriverDoc.docFullJ s1.doc), ("applied", toJson ap), ("skipped", toJson sk)]
+
+def handleReview (j : Json) : Except String Json := do
+  let d0 ← DriverDoc.parseDoc (← j.getObjVal? "doc")
+  let author ← getStr j "author"
+  let s0 := Doc.Sess.open d0 author "DATE".toList
+  let acceptAll := (j.getObjValAs? Bool "accept_all").toOption.getD false
+  if acceptAll then
+    let s1 := s0.acceptAllRevisions
+    pure <| Json.mkObj [("doc", DriverDoc.docFullJ s1.doc), ("applied", toJson (0 : Nat)), ("skipped", toJson (0 : Nat))]
+  else
+    let acts ← (← j.getObjValAs? (Array Json) "actions").toList.mapM fun a => do
+      let k ← a.getObjValAs? String "action"
+      let kind ← match k with
+        | "ACCEPT" => pure Doc.ActKind.accept | "REJECT" => pure Doc.ActKind.reject | "REPLY" => pure Doc.ActKind.reply
+        | _ => throw s!"bad action {k}"
+      let t ← getStr a "target_id"
+      let txt := match a.getObjVal? "text" with | .ok (Json.str x) => some x.toList | _ => none
+      pure ({ kind := kind, target := t, text := txt } : Doc.Action)
+    let (s1, ap, sk) := s0.applyActions acts
+    pure <| Json.mkObj [("doc", DriverDoc.docFullJ s1.doc), ("applied", toJson ap), ("skipped", toJson sk)]
+
 def handle (j : Json) : Except String Json := do
   let op ← j.getObjValAs? String "op"
   match op with
@@ -184,6 +218,8 @@ def handle (j : Json) : Except String Json := do
   | "init" => handleInitOp j
   | "extract" => handleExtract j
   | "normalize" => handleNormalize j
+  | "apply_indexed" => handleApplyIndexed j
+  | "review" => handleReview j
   | _ => throw s!"bad-op {op}"
 
 partial def loop (h : IO.FS.Stream) (out : IO.FS.Stream) : IO Unit := do
